@@ -24,7 +24,7 @@ func init() {
 			"WriteTimeout is 5 s outside the dedicated slow-broker scenarios, so deadline errors are not reachable by scheduling noise",
 		},
 		Shards:          16,
-		CaseTimeout:     120 * time.Second,
+		CaseTimeout:     60 * time.Second,
 		HangIsViolation: false,
 		Run:             runC01,
 	})
